@@ -14,6 +14,8 @@
   answer `.ok`/`.err`.
 -/
 import Cog.Sem.GoStrictLemmas
+import Cog.Front.KeepsConstraints
+import Cog.Gen.Chains
 namespace Cog.Sem
 open Cog.IR Cog.Sem.C08
 
@@ -281,5 +283,183 @@ example : scalarUnionsAreLeaf wStrict = true := by rfl
 example : goDecodeStrict 6 wStrict "p" "Root" wStrictDoc = .err := by rfl
 example : strictFaultsObj 6 wStrict "p" "Root" wStrictDoc =
     .ok [{ path := [.fld "items", .idx 1], kind := .undeclared "zz" }] := by rfl
+
+/-! ## constraints survive the FRONT-END and the Go chain (JSON Schema inputs)
+    ---- BEGIN block of the c01-front builder (front-end model: Cog/Front/JsonSchema*.lean; tie: stream `c01-front`) ----
+
+  For a FLAT object definition `s` (`isObjectNode`, key-sorted properties, every property a typed scalar: `rawFields`)
+  the front-end's struct carries, per property, exactly the constraint list generator.go builds from `minimum` /
+  `exclusiveMinimum` / `maximum` / `exclusiveMaximum` (`>=`, `>`, `<=`, `<`, float64 bounds) resp. `minLength` /
+  `maxLength` (`keeps_property`, `scalarOf_eq`, `srcConstraints`); the Go chain keeps them (`chain_struct`); hence the errors of
+  the generated `Validate()` are exactly the violations of the struct type WRITTEN FROM THE SOURCE KEYWORDS (`srcStructTy`),
+  as C08's specification `violations` finds them — which needs no schema set at all for scalar members. -/
+
+namespace FE
+open Cog.Front.JsonSchema Cog.Front.Keeps Cog.Sem.Src Cog.Passes Cog.Gen.Chains
+
+/-- the Go struct type of a flat object definition, from the source keywords alone: per property `scalarOf` (kind, constant,
+    constraint list in generator order, default), made nullable when the property is not required -/
+def srcStructTy (gs : List Field) : Ty := .struct (gs.map imgField) [] none {}
+
+/-- `Validate()` of the Go type generated from a flat JSON Schema object reports exactly the violations of the SOURCE
+    keywords: same violations, same paths, same order -/
+theorem C08_jsonschema_validate_end_to_end_partial
+    (pkg : String) (defs : Defs) (fuel : Nat) (root : String) (S Sg : Schemas) (s : JS) (gs : List Field)
+    (hS : frontEnd pkg defs fuel (refTo root) = .ok S)
+    (hroot : lookupDef defs root = some s) (hobj : isObjectNode s = true) (hsorted : sortedKeys (propsOf s) = true)
+    (hflat : rawFields s.attrs.required (propsOf s) = some gs)
+    (hP : Plain S = true) (hrun : runChain goChain S = .ok Sg) (hs : noConstrainedAlias Sg = true)
+    (n : Nat) (v : GoVal) (lc ls : List Viol)
+    (hc : goValidate n Sg pkg root v = .ok lc)
+    (hsp : violations n [] (srcStructTy gs) v = .ok ls) : lc = ls := by
+  obtain ⟨o, fs, ho, hty, _, _, hbuilt⟩ := keeps_object pkg defs fuel root S hS hroot hobj
+  rw [sortFields_id hsorted hbuilt] at hty
+  obtain ⟨hloc, hty'⟩ := chain_struct goChain (by decide) S Sg hP hrun pkg root o ho fs [] none Cog.Front.JsonSchema.m0 hty
+  have hsame := vFields_same (fieldsBuilt_same hbuilt hflat)
+  have := violations_flat Sg pkg root _ _ _ [] none Cog.Front.JsonSchema.m0 hloc hty' hsame n v
+  rw [srcStructTy] at hsp
+  rw [← this] at hsp
+  exact C08_validate_eq_partial Sg hs n pkg root v lc ls hc hsp
+
+/-- a value violating none of the source keywords is accepted … -/
+theorem C08_jsonschema_validate_accepts_valid_partial
+    (pkg : String) (defs : Defs) (fuel : Nat) (root : String) (S Sg : Schemas) (s : JS) (gs : List Field)
+    (hS : frontEnd pkg defs fuel (refTo root) = .ok S)
+    (hroot : lookupDef defs root = some s) (hobj : isObjectNode s = true) (hsorted : sortedKeys (propsOf s) = true)
+    (hflat : rawFields s.attrs.required (propsOf s) = some gs)
+    (hP : Plain S = true) (hrun : runChain goChain S = .ok Sg) (hs : noConstrainedAlias Sg = true)
+    (n : Nat) (v : GoVal) (lc : List Viol)
+    (hc : goValidate n Sg pkg root v = .ok lc)
+    (hsp : violations n [] (srcStructTy gs) v = .ok []) : lc = [] :=
+  C08_jsonschema_validate_end_to_end_partial pkg defs fuel root S Sg s gs hS hroot hobj hsorted hflat hP hrun hs n v lc [] hc hsp
+
+/-- … and a value violating exactly one of them gets exactly that error, at the member's path -/
+theorem C08_jsonschema_validate_single_fault_partial
+    (pkg : String) (defs : Defs) (fuel : Nat) (root : String) (S Sg : Schemas) (s : JS) (gs : List Field)
+    (hS : frontEnd pkg defs fuel (refTo root) = .ok S)
+    (hroot : lookupDef defs root = some s) (hobj : isObjectNode s = true) (hsorted : sortedKeys (propsOf s) = true)
+    (hflat : rawFields s.attrs.required (propsOf s) = some gs)
+    (hP : Plain S = true) (hrun : runChain goChain S = .ok Sg) (hs : noConstrainedAlias Sg = true)
+    (n : Nat) (v : GoVal) (lc : List Viol) (x : Viol)
+    (hc : goValidate n Sg pkg root v = .ok lc)
+    (hsp : violations n [] (srcStructTy gs) v = .ok [x]) : lc = [x] :=
+  C08_jsonschema_validate_end_to_end_partial pkg defs fuel root S Sg s gs hS hroot hobj hsorted hflat hP hrun hs n v lc [x] hc hsp
+
+/-! ### non-vacuity (length keywords: their bounds are Go `int`s; float64 bounds are read through `parseGFloat`, which the
+    kernel does not evaluate — the lab instances of stream c01-front cover them) -/
+
+def scS (a : JAttrs) : JS := .mk a [] [] [] [] .none .none .none
+
+/-- the error list of an `.ok` answer (decidable equality for the kernel-evaluated examples) -/
+def okList : DRes (List Viol) → Option (List Viol)
+  | .ok l => some l
+  | _ => none
+
+theorem okList_eq {x : DRes (List Viol)} {l : List Viol} (h : okList x = some l) : x = .ok l := by
+  cases x <;> simp [okList] at h ⊢; exact h
+
+theorem getD_some' {α} {o : Option α} {d : α} (h : o.isSome = true) : o = some (o.getD d) := by
+  cases o <;> simp_all
+
+/-- `R = {code: string minLength 2 maxLength 4 (required), note?: string maxLength 3}` -/
+def exPropsC : List (String × JS) := [
+  ("code", scS { types := ["string"], minLength := 2, maxLength := 4 }),
+  ("note", scS { types := ["string"], maxLength := 3 })]
+def exRootC : JS := .mk { types := ["object"], hasProps := true, required := ["code"] } [] [] [] exPropsC (.bool false) .none .none
+def exDefsC : Defs := [("R", exRootC)]
+
+def exGs : List Field := (rawFields exRootC.attrs.required (propsOf exRootC)).getD []
+
+/-- `{"code": "toolong", "note": "abcd"}` decoded: both members violate `maxLength` -/
+def exValC : GoVal := .struct [("code", false, .str "toolong"), ("note", true, .ptr (.str "abcd"))]
+
+example :
+    isObjectNode exRootC = true ∧ sortedKeys (propsOf exRootC) = true ∧
+    (rawFields exRootC.attrs.required (propsOf exRootC)).isSome = true ∧
+    (match frontEnd "p" exDefsC 8 (refTo "R") with
+     | .ok S =>
+       Plain S &&
+       (match runChain goChain S with
+        | .ok Sg =>
+          noConstrainedAlias Sg &&
+          (okList (goValidate 6 Sg "p" "R" exValC) ==
+             some [{ path := [.fld "code"], op := "<=", cons := "maxLength", bound := 16 },
+                   { path := [.fld "note"], op := "<=", cons := "maxLength", bound := 12 }]) &&
+          (okList (violations 6 [] (srcStructTy exGs) exValC) == okList (goValidate 6 Sg "p" "R" exValC)) &&
+          (okList (goValidate 6 Sg "p" "R" (.struct [("code", false, .str "ok"), ("note", true, .nil)])) == some [])
+        | _ => false)
+     | _ => false) = true := by
+  refine ⟨by decide +kernel, by decide +kernel, by decide +kernel, by decide +kernel⟩
+
+/-! ### the full statement and its refutation -/
+
+/-- like `rawFields`, but a property may also be a `$ref` to a typed scalar DEFINITION: the source constrains the member
+    through the definition's keywords -/
+def rawFieldsRef (defs : Defs) (req : List String) : List (String × JS) → Option (List Field)
+  | [] => some []
+  | p :: ps =>
+    let node : Option (JAttrs × String) :=
+      match scalarNode p.2 with
+      | some t => some (p.2.attrs, t)
+      | none =>
+        (match p.2.attrs.ref with
+         | some name => (match lookupDef defs name with
+           | some d => (scalarNode d).map fun t => (d.attrs, t)
+           | none => none)
+         | none => none)
+    match node, rawFieldsRef defs req ps with
+    | some (a, t), some fs => some ({ name := p.1, ty := scalarOf a t, required := req.contains p.1 } :: fs)
+    | _, _ => none
+
+/-- FULL statement: `Validate()` reports the violations of every constraint keyword the source puts on a member, also
+    through a `$ref` to a scalar definition.  False on the current tree. -/
+def C08_jsonschema_validate_full : Prop :=
+  ∀ (pkg : String) (defs : Defs) (fuel : Nat) (root : String) (S Sg : Schemas) (s : JS) (gs : List Field)
+    (n : Nat) (v : GoVal) (lc ls : List Viol),
+    frontEnd pkg defs fuel (refTo root) = .ok S → lookupDef defs root = some s → isObjectNode s = true →
+    rawFieldsRef defs s.attrs.required (propsOf s) = some gs → runChain goChain S = .ok Sg →
+    goValidate n Sg pkg root v = .ok lc → violations n [] (srcStructTy gs) v = .ok ls → lc = ls
+
+def cxRootC : JS := .mk { types := ["object"], hasProps := true, required := ["name"] } [] [] []
+  [("name", refTo "Name")] (.bool false) .none .none
+def cxDefsC : Defs := [("R", cxRootC), ("Name", scS { types := ["string"], maxLength := 3 })]
+def cxValC : GoVal := .struct [("name", false, .str "abcdef")]
+def cxGs : List Field := (rawFieldsRef cxDefsC cxRootC.attrs.required (propsOf cxRootC)).getD []
+
+/-- `R = {name: $ref Name}`, `Name = string maxLength 3`, value `{"name": "abcdef"}`: the generated `Validate()` never looks
+    behind a reference to a named scalar (known finding C08/validate/constraints-behind-alias; the front-end and the chain DO
+    keep the constraint on the `Name` object) -/
+theorem C08_jsonschema_validate_counterexample : ¬ C08_jsonschema_validate_full := by
+  intro h
+  have hw : (match frontEnd "p" cxDefsC 8 (refTo "R") with
+      | .ok S =>
+        (match runChain goChain S with
+         | .ok Sg => okList (goValidate 6 Sg "p" "R" cxValC) == some []
+         | _ => false)
+      | _ => false) = true := by decide +kernel
+  have hspec : violations 6 [] (srcStructTy cxGs) cxValC =
+      .ok [{ path := [.fld "name"], op := "<=", cons := "maxLength", bound := 12 }] := okList_eq (by decide +kernel)
+  cases hS : frontEnd "p" cxDefsC 8 (refTo "R") with
+  | ok S =>
+    rw [hS] at hw
+    cases hr : runChain goChain S with
+    | ok Sg =>
+      simp only [hr] at hw
+      cases hg : goValidate 6 Sg "p" "R" cxValC with
+      | ok lc =>
+        have := h "p" cxDefsC 8 "R" S Sg cxRootC cxGs 6 cxValC lc _ hS rfl (by decide +kernel) (getD_some' (by decide +kernel)) hr hg hspec
+        subst this
+        rw [hg] at hw
+        simp [okList] at hw
+      | err => rw [hg] at hw; simp [okList] at hw
+      | unsup w => rw [hg] at hw; simp [okList] at hw
+      | fuel => rw [hg] at hw; simp [okList] at hw
+    | err _ => simp [hr] at hw
+    | panic _ => simp [hr] at hw
+  | err _ => simp [hS] at hw
+  | panic _ => simp [hS] at hw
+
+end FE
+-- ---- END block of the c01-front builder ----
 
 end Cog.Sem
